@@ -149,6 +149,9 @@ impl<'p, 's> BottomUpContext<'p, 's> {
   /// Execute `task` (with corresponding `node`), returning its result.
   #[inline]
   fn execute<T: Task>(&mut self, task: &T, node: TaskNode) -> T::Output {
+    // A task that is (re-)executed is not consistent until it finishes: if the execution is aborted, the task has no
+    // output any more, so the rest of the session must not treat it as already consistent.
+    self.session.consistent.remove(&node);
     self.session.store.reset_task(&node);
     let previous_executing_task = self.session.current_executing_task.replace(node);
     let track_end = self.session.tracker.execute(task);
@@ -163,6 +166,8 @@ impl<'p, 's> BottomUpContext<'p, 's> {
   /// [value trait object](ValueObj).
   #[inline]
   fn execute_obj(&mut self, task: &dyn TaskObj, node: TaskNode) -> Box<dyn ValueObj> {
+    // See `execute`: not consistent until it finishes.
+    self.session.consistent.remove(&node);
     self.session.store.reset_task(&node);
     let previous_executing_task = self.session.current_executing_task.replace(node);
     let track_end = self.session.tracker.execute(task.as_key_obj());
